@@ -681,19 +681,20 @@ def _ones_on_axis(nd, k, n):
 
 # ----------------------------------------------------------------------------- selections
 
-def sel_head(name):
+def sel_head(name, perm=False):
     h = f"Sel:{name}"
     if h not in ST.head:
-        ST.head[h] = HeadInfo("Sel")
+        ST.head[h] = HeadInfo("Sel", extra="perm" if perm else None)
     return h
 
 
-def gather_axis(v, ax, idxname, newsize):
-    """v.take(idx, axis=ax) / v[..., idx, ...]: contraction with a one-hot selection head."""
+def gather_axis(v, ax, idxname, newsize, perm=False):
+    """v.take(idx, axis=ax) / v[..., idx, ...]: contraction with a one-hot selection head.
+    perm: idx is a permutation of the whole axis (distinct indices, newsize == size): the head is orthogonal."""
     nd = len(v.axes)
     ax = _norm_axis(ax, nd)
     A = v.axes[ax]
-    h = sel_head(idxname)
+    h = sel_head(idxname, perm and axsize(A) == D(newsize))
     newsize = D(newsize)
     if len(A) > 1:
         raise Undecided("gather on a composite axis")
@@ -1161,6 +1162,21 @@ def simplify(coef, net, free):
                 del f[i1]           # sum over a one-hot row is 1
                 changed = True
                 break
+            if H[h1].extra == "perm" and w is not None:
+                if w not in free and cnt[w] == 1:
+                    del f[i1]       # permutation: columns sum to one as well
+                    changed = True
+                    break
+                done = False
+                for i2, (h2, x2) in enumerate(f):
+                    if i2 <= i1 or h2 != h1 or len(x2) != 2 or x2[1] != v or x2[0] == w:
+                        continue
+                    if v not in free and cnt[v] == 2:
+                        f = [g for k, g in enumerate(f) if k not in (i1, i2)] + [("delta", (w, x2[0]))]   # P P' = I
+                        changed = done = True
+                        break
+                if done:
+                    break
             for i2, (h2, x2) in enumerate(f):
                 if i2 <= i1 or h2 != h1 or len(x2) != len(x1):
                     continue
